@@ -1,9 +1,69 @@
-(* C16 - placeholder until Proofs/TextIOFacts.v is complete *)
-From Coq Require Import List ZArith.
-From MsmV Require Import Lib.Result Model.TextIO.
+(* C16 - Text input/output round-trips data and honours columns and limits.
+   Statements only; proofs in Proofs/TextIOFacts.v.  Partial: pandas / numpy
+   parsers and printers are MODELLED at byte level (Model/TextIO.v); the tie
+   compares bytes and tables in both directions. *)
+From Coq Require Import List ZArith NArith Arith Bool.
+From MsmV Require Import Lib.Result Lib.PyList Model.TextIO Proofs.TextIOFacts.
 Import ListNotations.
+Local Open Scope nat_scope.
+
+(* a number written in any of the formats %.5f / %.0f / %d is read back *)
+Theorem number_roundtrip : forall f z, parse_num (render_num f z) = Some z.
+Proof. exact parse_render_num. Qed.
+Print Assumptions number_roundtrip.
+
+(* whatever integer table is written, with any header lines (free of line ends; the
+   writer splits the header text at LF / CR), is read back identically: comment lines ignored *)
+Theorem roundtrip_thm : forall f header_lines table ncols,
+  (forall l, In l header_lines -> no_eol l) ->
+  table <> [] -> 1 <= ncols -> (forall r, In r table -> length r = ncols) ->
+  parse_table [bHASH] (render f header_lines table) = Ok table.
+Proof. exact roundtrip. Qed.
+Print Assumptions roundtrip_thm.
+
+(* requested columns in the requested order (sorted read + swap back, as coded) *)
+Theorem cols_order : forall cols row j, NoDup cols -> (forall c, In c cols -> c < length row) ->
+  j < length cols -> nth j (select_cols cols row) 0%Z = nth (nth j cols 0) row 0%Z.
+Proof. exact select_cols_order. Qed.
+Print Assumptions cols_order.
+
+Theorem cols_count : forall cols row, length (select_cols cols row) = length cols.
+Proof. exact select_cols_length. Qed.
+Print Assumptions cols_count.
+
+Theorem nrows_prefix : forall cs s k t, parse_table cs s = Ok t -> opentxt cs s None (Some k) = Ok (firstn k t).
+Proof. exact opentxt_nrows. Qed.
+Print Assumptions nrows_prefix.
+
+(* limits: pieces of exactly the listed lengths whose concatenation is the whole file;
+   limits that do not add up are rejected; no limits file = one piece *)
+Theorem limits_pieces : forall (data : list (list Z)) ls parts, split_limits data (Some ls) = Ok parts ->
+  map (@length (list Z)) parts = ls /\ concat parts = data.
+Proof. intros data ls parts. apply split_limits_spec. Qed.
+Print Assumptions limits_pieces.
+
+Theorem limits_reject : forall (data : list (list Z)) ls, list_sum ls <> length data ->
+  split_limits data (Some ls) = Err ValueError.
+Proof. intros data ls. apply split_limits_reject. Qed.
+Print Assumptions limits_reject.
+
+(* microstate reader: requested integer dtype, 16 bit only by default; non-integer rejected *)
+Theorem micro_dtype : forall cs s lim d dt parts, openmicrostates cs s lim d = Ok (dt, parts) ->
+  dt = match d with Some x => x | None => Int16 end /\ dt <> Float64.
+Proof. exact openmicrostates_dtype. Qed.
+Print Assumptions micro_dtype.
+
+Theorem micro_rejects_float : forall cs s lim, openmicrostates cs s lim (Some Float64) = Err TypeError.
+Proof. exact openmicrostates_float. Qed.
+Print Assumptions micro_rejects_float.
+
+Theorem micro_labels_unchanged : forall z, (-32768 <= z < 32768)%Z -> dtype_wrap Int16 z = z.
+Proof. exact dtype_wrap_fits. Qed.
+Print Assumptions micro_labels_unchanged.
+
 Example io_example :
   opentxt [bHASH] (render F5 [[104; 35; 105]] [[1; -2; 300]; [40000; 5; -6]]%Z) (Some [2; 0]) None
-  = Ok [[300; 1]; [-6; 40000]]%Z.
-Proof. vm_compute. reflexivity. Qed.
+  = Ok [[300; 1]; [-6; 40000]]%Z
+  /\ is_ok (parse_table [bHASH] (render F5 [[104; 13; 105]] [[1; 2]]%Z)) = false.
+Proof. vm_compute. split; reflexivity. Qed.
 Print Assumptions io_example.
